@@ -85,7 +85,8 @@ class Gen:
         rng = self.rng
         if depth == 0 or rng.random() < 0.25:
             return self.leaf(allow_terminal)
-        k = rng.choice(["tuple", "template", "coll_prefixed", "coll_fixed", "optional", "typed_array", "typed_fixed", "enum_switch"]
+        k = rng.choice(["tuple", "template", "coll_prefixed", "coll_fixed", "optional", "typed_array", "typed_fixed", "enum_switch",
+                        "flag_switch", "optional_flagged"]
                        + (["coll_greedy", "ifpresent", "typed_greedy"] if allow_terminal else []))
         if k == "tuple":
             n = rng.choice([1, 2, 3])
@@ -138,6 +139,27 @@ class Gen:
             if size is None:
                 return se.TypedByteArray(se.U8, s), vf, False
             return se.TypedBytesFixed(size, s), vf, False
+        if k == "flag_switch":
+            # one payload per set flag, on the wire in the order of the choice table whatever the order of the value dict
+            members = [Perm.A, Perm.B, Perm.C]
+            kids = [self.tree(depth - 1, False) for _ in members]
+            spec = se.FlagSwitch(se.IntFlag(Perm, se.U8), {m: kd[0] for m, kd in zip(members, kids)})
+
+            def vf_flags(r, kids=kids, members=members):
+                chosen = [i for i in range(len(members)) if r.random() < 0.6]
+                r.shuffle(chosen)
+                return {members[i]: kids[i][1](r) for i in chosen}
+            return spec, vf_flags, False
+        if k == "optional_flagged":
+            s_, vf_, t_ = self.tree(depth - 1, allow_terminal)
+            fl = se.IntFlag(Perm, se.U8)
+            spec = se.Template({"flags": fl, "x": se.OptionalFlagged("flags", fl, Perm.B, s_)})
+
+            def vf_of(r, vf_=vf_):
+                if r.random() < 0.5:
+                    return {"flags": r.choice([Perm.B, Perm.A | Perm.B, Perm.B | Perm.C]), "x": vf_(r)}
+                return {"flags": r.choice([Perm(0), Perm.A, Perm.A | Perm.C]), "x": None}
+            return spec, vf_of, t_
         if k == "enum_switch":
             a = self.tree(depth - 1, allow_terminal)
             b = self.tree(depth - 1, allow_terminal)
